@@ -5,6 +5,7 @@ import (
 	"fmt"
 	"os/exec"
 	"strings"
+	"time"
 
 	"github.com/risor-io/risor/errz"
 	"github.com/risor-io/risor/object"
@@ -219,5 +220,11 @@ func (c *Command) MarshalJSON() ([]byte, error) {
 }
 
 func NewCommand(cmd *exec.Cmd) *Command {
+	if cmd.Cancel != nil && cmd.WaitDelay == 0 {
+		// The command is bound to a context. Once that context is done and the
+		// process was killed, do not wait indefinitely for descendants of the
+		// process that still hold its output pipes open.
+		cmd.WaitDelay = time.Second
+	}
 	return &Command{value: cmd}
 }
